@@ -31,13 +31,9 @@ import "github.com/dcaiafa/lox/internal/base/set"
 // First(D), and '+' by First('+'). Finally ε is in the final result only
 // because First(D) includes it.
 func First(g *Grammar, syms []Term) set.Set[*Terminal] {
-	visited := new(set.Set[Term])
-	if len(syms) == 1 {
-		return first(g, visited, syms[0])
-	}
 	var firstSet set.Set[*Terminal]
 	for _, sym := range syms {
-		partialFirst := first(g, visited, sym)
+		partialFirst := first(g, sym)
 		firstSet.AddSet(partialFirst)
 
 		// If sym[i] includes ε, include FIRST(sym[i+1]) in FIRST(syms).
@@ -50,45 +46,60 @@ func First(g *Grammar, syms []Term) set.Set[*Terminal] {
 	return firstSet
 }
 
-func first(g *Grammar, visited *set.Set[Term], s Term) set.Set[*Terminal] {
+func first(g *Grammar, s Term) set.Set[*Terminal] {
 	if terminal, ok := s.(*Terminal); ok {
 		return set.New[*Terminal](terminal)
 	}
+	return g.ruleFirstSets()[s.(*Rule)]
+}
 
-	// Productions can contain recursion.
-	// E.g.: xs = xs x | x
-	if visited.Has(s) {
-		return set.Set[*Terminal]{}
+// ruleFirstSets returns FIRST(rule) (including ε for nullable rules) for every
+// rule of the grammar. Productions can contain recursion (e.g.: xs = xs x | x),
+// so the sets are computed together as a least fixed point: the productions
+// are revisited until no set grows. The result is cached until the grammar
+// changes.
+func (g *Grammar) ruleFirstSets() map[*Rule]set.Set[*Terminal] {
+	if g.firstSets != nil {
+		return g.firstSets
 	}
-	visited.Add(s)
 
-	rule := s.(*Rule)
-	firstSet := set.Set[*Terminal]{}
-	for _, prod := range rule.Prods {
-		if len(prod.Terms) == 0 {
-			firstSet.Add(Epsilon)
-			continue
-		}
+	firstSets := make(map[*Rule]set.Set[*Terminal], len(g.Rules))
+	for _, rule := range g.Rules {
+		firstSets[rule] = set.Set[*Terminal]{}
+	}
 
-		addEpsilon := true
-		for _, term := range prod.Terms {
-			termFirst := first(g, visited, term)
-			hasEpsilon := false
-			termFirst.ForEach(func(s *Terminal) {
-				if s == Epsilon {
-					hasEpsilon = true
-					return
+	for changed := true; changed; {
+		changed = false
+		for _, prod := range g.Prods {
+			firstSet := firstSets[prod.Rule]
+			addEpsilon := true
+			for _, term := range prod.Terms {
+				var termFirst set.Set[*Terminal]
+				if terminal, ok := term.(*Terminal); ok {
+					termFirst = set.New[*Terminal](terminal)
+				} else {
+					termFirst = firstSets[term.(*Rule)]
 				}
-				firstSet.Add(s)
-			})
-			if !hasEpsilon {
-				addEpsilon = false
-				break
+				hasEpsilon := false
+				termFirst.ForEach(func(s *Terminal) {
+					if s == Epsilon {
+						hasEpsilon = true
+						return
+					}
+					changed = firstSet.Add(s) || changed
+				})
+				if !hasEpsilon {
+					addEpsilon = false
+					break
+				}
 			}
-		}
-		if addEpsilon {
-			firstSet.Add(Epsilon)
+			if addEpsilon {
+				changed = firstSet.Add(Epsilon) || changed
+			}
+			firstSets[prod.Rule] = firstSet
 		}
 	}
-	return firstSet
+
+	g.firstSets = firstSets
+	return firstSets
 }
